@@ -1,5 +1,7 @@
 package main
 
+import "strings"
+
 // replayDispatch selects a replay driver by obligation kind and function. Drivers are
 // registered in replayDrivers; none applying means "no-failing-input-found".
 type replayDriver func(w *World, ob *Obligation, rep map[string]interface{}) (bool, string)
@@ -7,10 +9,15 @@ type replayDriver func(w *World, ob *Obligation, rep map[string]interface{}) (bo
 var replayDrivers []replayDriver
 
 func replayDispatch(w *World, ob *Obligation, rep map[string]interface{}) (bool, string) {
+	var tried []string
 	for _, d := range replayDrivers {
-		if ok, detail := d(w, ob, rep); ok || detail != "" {
-			return ok, detail
+		ok, detail := d(w, ob, rep)
+		if ok {
+			return true, detail
+		}
+		if detail != "" {
+			tried = append(tried, detail)
 		}
 	}
-	return false, ""
+	return false, strings.Join(tried, "; ")
 }
